@@ -87,9 +87,9 @@ PROPS["C12"] = {
     "units": ["scan", "load", "canon", "perr", "run"],
     "probes": {"scan": ["parse::Parser::read", "parse::Parser::read_eval", "depfile::parse", "scanner::Scanner::read"], "load": ["load::Loader::path"], "canon": ["canon::canonicalize_path"], "perr": ["scanner::Scanner::format_parse_error"], "run": ["main::main"]},
     "level": "proof",
-    "assumptions": SCAN_ASSUME + [C12_LOAD, "canonicalize_path's two panics are preconditions (non-empty, <= 60 components; unit canon) that Loader::evaluate_path cannot discharge: KNOWN FINDING D2/D3 (unit load).  The other callers (Work::lookup for command-line names, record_finished for reported deps, db::read_path) are not checked for these two preconditions",
+    "assumptions": SCAN_ASSUME + [C12_LOAD, "canonicalize_path is proved total (unit canon, no precondition) since the fixes for D2 (empty path, ebc0007) and D3 (more than 60 components, 0531b09), so none of its callers (Loader::path, Work::lookup for command-line names, record_finished for depfile names) has anything to discharge; StackStack::{push,pop} are verified (the array index is in bounds, LIFO order across the array/heap-spill boundary) over a TRUSTED MaybeUninit model (write stores what assume_init reads back); StackStack::new is a stub",
         "unit perr: Scanner::format_parse_error never panics and terminates for every buffer < 2^62 bytes and every error offset <= buffer length (that parse errors carry such an offset is the scanner invariant ofs <= len, not re-proved at the closure in load::parse_with_parser); slice::split is a trusted wrapper (lengths add up); the byte model of str is trusted (strb.pre.rs); from_utf8_unchecked on a manifest that is not UTF-8 is UB that the model hides (listed)",
-        "NOT covered: the n2: error: plumbing in load.rs/run.rs/main.rs",
+        "the `n2: error:` plumbing: main.rs is under contract (unit run); that every Err of the loader reaches it is `?` all the way (run::build under contract, load::read's trace::scope closure by R5)",
         "allocation failure, stack overflow on recursive includes and file I/O are outside the contract language"],
 }
 PROPS["C15"] = {
@@ -203,7 +203,7 @@ PROPS["C13"] = {
     "probes": {"canon": ["canon::canonicalize_path"], "load": ["load::Loader::path"], "dirty": ["work::Work::lookup", "work::Work::record_finished"]},
     "level": "proof",
     "assumptions": [
-        "PROVED for all inputs (unit canon): the real in-place two-cursor text of canonicalize_path computes exactly the byte-level spec function cn::canon (one case per component kind, written from the statement), never writes or reads out of bounds (every assert_unchecked is a discharged assert, R3), and 1 <= len(result) <= len(input); preconditions: non-empty, <= 60 component starts",
+        "PROVED for all inputs (unit canon): the real in-place two-cursor text of canonicalize_path computes exactly the byte-level spec function cn::canon (one case per component kind, written from the statement), never writes or reads out of bounds (every assert_unchecked is a discharged assert, R3), and 1 <= len(result) (<= len(input) unless the input is empty, which gives \".\"); NO preconditions: every byte string, any number of components",
         "PROVED for all inputs (spec-level lemmas over cn::canon, verified in unit canon): lemma_canon_canonical -- every output is in canonical form (cn::is_canonical: no empty or `.` component, `..` only leading, root kept; by induction over the run with the invariant that the output and every point the component stack can cut it back to are `good` prefixes); lemma_canon_fix -- every canonical string is a fixpoint; hence lemma_canon_idempotent: canon(canon(s)) == canon(s)",
         "PROVED for all inputs: cn::lemma_canon_location -- canon(s) denotes the same lexical location as s (cn::location: rooted?, number of leading `..` above the start, list of names descended; proved by relating the run's output and component stack to the location accumulators, with a concatenation lemma for scanning at component boundaries).  The exhaustive `by (compute)` check of the same four statements over all strings of length <= 5 (quick) / <= 7 (thorough) over {a . / \\\\} is kept as a redundant cross-check of the lemmas' statements (it evaluates the spec functions on concrete strings)",
 
@@ -220,8 +220,8 @@ NOT_APPLICABLE = {
 
 LEVEL_TEXT = {
     "C13": {
-        "text": "Unbounded proof (Verus) on the real text of canon.rs canonicalize_path: for every non-empty byte string with at most 60 component starts the in-place rewrite leaves exactly cn::canon(input) -- a recursive spec function with one case per component kind (empty and `.` removed, `..` removes the preceding kept component or is kept when there is none, root kept, everything else copied) -- with all indices in bounds, dst <= src, and 1 <= output length <= input length (loop invariant: run(input, src, data[..dst], stack) is constant).  Call sites Loader::path, Work::lookup and Work::record_finished hand only canonicalised names to the name->id map (precondition of the trusted map stubs).  Adequacy of the spec function is PROVED for all inputs by lemmas over it (canonical form of every output, canonical implies fixpoint, hence idempotent; same lexical location); a `by (compute)` evaluation over all strings up to length 5/7 over {a . / \\} is kept as a redundant cross-check.",
-        "note": "proof (refinement, safety, length, idempotence, canonical form, location equivalence, call sites); the bounded compute check is redundant.  Trusted: StackStack model, as_mut_vec/set_len, char-level idempotence axiom at call sites.",
+        "text": "Unbounded proof (Verus) on the real text of canon.rs canonicalize_path: for EVERY byte string (since the fixes for D2/D3 there is no precondition: the empty string gives \".\", component starts beyond 60 spill to the heap) the in-place rewrite leaves exactly cn::canon(input) -- a recursive spec function with one case per component kind (empty and `.` removed, `..` removes the preceding kept component or is kept when there is none, root kept, everything else copied) -- with all indices in bounds, dst <= src, and 1 <= output length <= input length (loop invariant: run(input, src, data[..dst], stack) is constant).  Call sites Loader::path, Work::lookup and Work::record_finished hand only canonicalised names to the name->id map (precondition of the trusted map stubs).  Adequacy of the spec function is PROVED for all inputs by lemmas over it (canonical form of every output, canonical implies fixpoint, hence idempotent; same lexical location); a `by (compute)` evaluation over all strings up to length 5/7 over {a . / \\} is kept as a redundant cross-check.",
+        "note": "proof (refinement, safety, length, idempotence, canonical form, location equivalence, call sites); the bounded compute check is redundant.  Trusted: MaybeUninit slot model (StackStack::push/pop themselves are verified), as_mut_vec/set_len, char-level idempotence axiom at call sites.",
         "design_ref": "DESIGN.md §6 C13",
     },
     "C11": {
@@ -256,7 +256,7 @@ LEVEL_TEXT = {
     },
     "C12": {
         "text": "Unbounded proof (Verus) on the real text of scanner.rs (Scanner::{get,peek,next,back,read,skip,skip_spaces,expect}), all of parse.rs's Parser (read, read_vardef, read_scoped_vars, read_rule, read_pool, read_unevaluated_paths_to, read_build, read_default, skip_comment, read_ident, read_eval, read_simple_varname, read_escape, skip_spaces) and depfile.rs (skip_spaces, read_path, parse): every `get_unchecked` (rewritten to a checked index, R3) is in bounds at every call site for every byte string, the scanner's three panics are unreachable, every slice(start,end) has start <= end <= len, and every loop carries a decreases measure (buffer length minus offset) -- so for all inputs the manifest/depfile readers terminate with Ok or a ParseError and never read outside the buffer.",
-        "note": "Found D1 (read past the NUL in read_vardef), D4 (format_parse_error sliced inside a character) and D16 (include cycle overflowed the stack) -- all fixed in /repo. canonicalize_path's panics (D2, D3) are a KNOWN FINDING at Loader::evaluate_path. main.rs turns every Err of run() into `n2: error:` and status 1 (unit run); that load errors reach run() as Err is `?` in build (unit run) and read (unit load). Trusted: Scanner::new stub, utf-8/str wrappers, slice::split wrapper.",
+        "note": "Found D1 (read past the NUL in read_vardef), D4 (format_parse_error sliced inside a character) and D16 (include cycle overflowed the stack) -- all fixed in /repo. canonicalize_path's two panics (D2 empty path, D3 more than 60 components; reachable from manifests, the command line and depfiles) were fixed at the root in /repo (ebc0007, 0531b09). main.rs turns every Err of run() into `n2: error:` and status 1 (unit run); that load errors reach run() as Err is `?` in build (unit run) and read (unit load). Trusted: Scanner::new stub, utf-8/str wrappers, slice::split wrapper.",
         "design_ref": "DESIGN.md §6 C12",
     },
     "C15": {
